@@ -758,6 +758,10 @@ def call(f: T, *args: T) -> T:
             args[2].args[1].op == "const" and args[2].args[1].args[0] == 1:
         return getitem(args[0], mk("tuple", mk("slice", NONE, NONE, NONE), args[1]))     # take(x, i, axis=1) is x[:, i]
 
+    if f.op == "name" and f.args[0] == "builtins.dict" and len(args) == 1 and args[0].op in (
+            "sym", "setitem", "update", "dict", "scan_carry", "phi"):
+        # dict(d): a shallow copy has the value of d (stores into the copy rebind the copy's name only)
+        return args[0]
     if f.op == "name" and f.args[0] == "builtins.slice" and 1 <= len(args) <= 3 and not any(a_.op in ("kw", "star") for a_ in args):
         # slice(stop) / slice(start, stop[, step]) is the subscript form start:stop:step
         if len(args) == 1:
@@ -2271,6 +2275,12 @@ class Evaluator:
                         not isinstance(k.args[0], bool) and 0 <= k.args[0] <= 8 and len(seq.args) * k.args[0] <= 16 and \
                         all(isinstance(a, T) and a.op == "const" for a in seq.args):
                     return mk(seq.op, *(list(seq.args) * k.args[0]))
+        if op in ("+", "-", "*", "//", "%") and l.op == "const" and r.op == "const" and \
+                all(isinstance(x.args[0], int) and not isinstance(x.args[0], bool) for x in (l, r)) and \
+                not (op in ("//", "%") and r.args[0] == 0) and abs(l.args[0]) < 1 << 20 and abs(r.args[0]) < 1 << 20:
+            # integer arithmetic on two literals (an unrolled loop variable in `1 - field`, `k + 1`): the literal result
+            a_, b_ = l.args[0], r.args[0]
+            return const({"+": a_ + b_, "-": a_ - b_, "*": a_ * b_, "//": a_ // b_ if b_ else 0, "%": a_ % b_ if b_ else 0}[op])
         return mk("binop", op, l, r)
 
     def ex_UnaryOp(self, fr, n):
@@ -2681,7 +2691,7 @@ class Evaluator:
         for callee, _rc in cands:
             if callee is None:
                 return None
-            bound = f.op == "attr" and not callee.is_staticmethod
+            bound = bound_receiver(f, callee)
             ok, _, mp = bind_call(callee, len(pos), list(kws), bound)
             if not ok:
                 return None
@@ -2706,7 +2716,7 @@ class Evaluator:
             if callee is None or any(q.kind in ("vararg", "kwarg") for q in callee.params):
                 return args, kws
             pp = [q.name for q in callee.pos_params()]
-            if pp and ((f.op == "attr" and not callee.is_staticmethod) or (f.op == "cls" and pp[0] == "self")):
+            if pp and (bound_receiver(f, callee) or (f.op == "cls" and pp[0] == "self")):
                 pp = pp[1:]
             sigs.add(tuple(pp))
         if len(sigs) != 1:
@@ -2913,7 +2923,7 @@ class Evaluator:
                     if any(q.kind in ("vararg", "kwarg") for q in callee.params):
                         return None
                     pp = [q.name for q in callee.pos_params()]
-                    if (F0.op == "attr" and not callee.is_staticmethod and pp) or (F0.op == "cls" and pp and pp[0] == "self"):
+                    if (bound_receiver(F0, callee) and pp) or (F0.op == "cls" and pp and pp[0] == "self"):
                         pp = pp[1:]
                     sigs.add(tuple(pp))
                 if len(sigs) == 1:
@@ -3005,7 +3015,7 @@ class Evaluator:
         if any(a.op in ("star", "dstar") for a in args + kws):
             return None
         kwd = {k.args[0]: k.args[1] for k in kws if k.op == "kw"}
-        bound_self = f.op == "attr" and not callee.is_staticmethod
+        bound_self = bound_receiver(f, callee)
         ok, _, mapping = bind_call(callee, len(args), list(kwd), bound_self)
         if not ok:
             return None
@@ -3031,6 +3041,11 @@ class Evaluator:
             else:
                 sub.self_class = recv_cls or self.static_type(recv, fr) or callee.cls
                 sub.exact_self = recv in self.exact_types
+        elif f.op == "attr" and f.args[0].op == "cls" and pp and pp[0].name == "self" and \
+                binding.get("self") is sym("self") and fr.self_class:
+            # Base.method(self, ...): the receiver is the caller's own object
+            sub.self_class = fr.self_class
+            sub.exact_self = self._frame_exact(fr)
         sub.caller = fr
         for prm in callee.params:
             if prm.name in binding:
@@ -3301,6 +3316,9 @@ class Evaluator:
                 fi = self.p.lookup_method(recv.args[0], meth)
                 if fi is not None and (fi.is_classmethod or fi.is_staticmethod):
                     return [(fi, recv.args[0])]
+                if fi is not None and fi.node is not None and not isinstance(fi.node, ast.Lambda):
+                    # Base.method(self, ...): the instance method of that very class, the receiver passed explicitly
+                    return [(fi, recv.args[0])]
                 return None
             c = self.static_type(recv, fr)
             if c is None and recv.op in ("call", "getitem", "scan_carry", "scan_x", "vmap_elem"):
@@ -3393,6 +3411,16 @@ def strip_wrappers(t: T) -> T:
                 t = f.args[0]
                 continue
         return t
+
+
+def bound_receiver(f: T, callee) -> bool:
+    """does the call f(...) bind the callee's first parameter to the receiver?  obj.m(..) does (unless m is a
+    staticmethod); Class.m(obj, ..) on an instance method passes the receiver as an ordinary first argument"""
+    if f.op != "attr" or callee is None or callee.is_staticmethod:
+        return False
+    if f.args[0].op == "cls" and not callee.is_classmethod:
+        return False
+    return True
 
 
 def transparent(f: T) -> T:
